@@ -84,9 +84,9 @@ class ExprMixin2:
                     xs.append(self.unbox(tj, pt, st) if sort_of_type(pt) == Val else V(pt, tj))
                 return [(st, V("tuple", xs=xs))]
             t = st.read(f"{decl}.{name}", r, sort_of_type(ty))
-            if decl == "ast" and self.private_pred is not None:
-                # ownership: the backing lists of Stack / ModuleBody never escape into AST nodes (encapsulation obligations, C09)
-                st.assume(z3.Implies(Val.is_R(t), z3.Not(self.private_pred(Val.r(t)))))
+            if decl == "ast":
+                # ghost invariant: whatever an AST node field refers to carries the node-owned flag (set at every store into such a field)
+                st.assume(z3.Implies(Val.is_R(t), z3.Select(st.comp("list.nodeowned"), Val.r(t))))
             if sort_of_type(ty) == Val:
                 return [(st, self.unbox(t, ty, st))]
             return [(st, V(ty, t))]
